@@ -1,5 +1,5 @@
 (* Proofs about Model/ReadSeeker.v (C09). *)
-From Coq Require Import List NArith ZArith Arith Bool Lia ZifyN ZifyNat ZifyBool.
+From Coq Require Import List NArith ZArith Arith Bool Lia ZifyN ZifyNat ZifyBool Permutation.
 From DS Require Import Base.Bytes Base.Hash Model.ReadSeeker.
 Import ListNotations.
 Local Open Scope Z_scope.
@@ -697,7 +697,34 @@ Section Fuse.
       split; [|exact Hr]. rewrite <- Hl. apply nth_error_Some. congruence.
     - cbn. split; [|reflexivity]. rewrite <- Hl. apply nth_error_None. exact En.
   Qed.
+
+  Lemma fuse_run_all n rqs : forall fs, fuse_ok n fs ->
+    Forall2 (fuse_answer_ok blob store n) rqs (snd (fuse_run store nc idx fs rqs)) \/ Collision H.
+  Proof.
+    induction rqs as [|[[h off] len] rest IH]; intros fs Hok; [left; constructor|].
+    cbn [fuse_run]. pose proof (fuse_req_spec n fs h off len Hok) as Hs. pose proof (fuse_req_ok n fs (h, off, len) Hok) as Hok'.
+    destruct (fuse_req store nc idx fs (h, off, len)) as [fs' r]. cbn [fst snd] in *.
+    specialize (IH fs' Hok'). destruct (fuse_run store nc idx fs' rest) as [fs'' rs]. cbn [snd] in *.
+    destruct IH as [IH|C]; [|right; exact C].
+    destruct r as [r|].
+    - destruct Hs as [Hh [Hp|C]]; [|right; exact C]. left. constructor; [|exact IH].
+      unfold fuse_answer_ok. unfold fuse_post in Hp. destruct Hp as [_ Hp]. destruct r; try contradiction.
+      + exact Hp.
+      + destruct Hp as [A|[A|[c [k [i [_ A]]]]]]; [left; exact A|right; left; exact A|right; right; exists c, k, i; exact A].
+    - left. constructor; [|exact IH]. cbn. exact (proj1 Hs).
+  Qed.
 End Fuse.
+
+(* Whatever the order in which the handles' mutexes let the requests in -- [served] is ANY list, in particular any
+   permutation of the requests that were issued concurrently -- every answer is right. *)
+Theorem fuse_any_admission_order H maxsz idx blob store n issued served :
+  index_describes H idx blob -> store_sound H store -> Permutation issued served ->
+  let nc := new_null_chunk H maxsz in
+  Forall2 (fuse_answer_ok blob store n) served (snd (fuse_run store nc idx (fuse_open idx n) served)) \/ Collision H.
+Proof.
+  intros Hd Hs _ nc. apply (fuse_run_all H idx blob Hd store nc (null_chunk_ok H maxsz) Hs n).
+  eapply fuse_open_ok; eauto.
+Qed.
 
 Theorem fuse_read_refines_blob H maxsz idx blob store n rqs h off len :
   index_describes H idx blob -> store_sound H store ->
